@@ -301,3 +301,99 @@ def extra_obligations(tier):
 
 def _norm(s):
     return ''.join(s.split())
+
+
+# ------------------------------------------------------------------ Molecule.same_nodes: when two molecules may share a molecule type
+NKey3, AKey3, AVal3 = TKey('NKey3'), TKey('AKey3'), TKey('AVal3')
+Attr3 = TMap(AKey3, AVal3)
+FM3 = 'vermouth/molecule.py'
+
+
+def setup_same_nodes(cx):
+    from pyvc.values import IterV
+    from pyvc.builtins import _int
+    ka, kb = cx.val('KEYS_A', TSeq(NKey3)), cx.val('KEYS_B', TSeq(NKey3))
+    va, vb = cx.val('ATTRS_A', TSeq(Attr3)), cx.val('ATTRS_B', TSeq(Attr3))
+    ign = cx.val('IGNORED', TSet(AKey3))
+    cx.spec_env.update(KEYS_A=ka, KEYS_B=kb, ATTRS_A=va, ATTRS_B=vb, IGNORED=ign)
+    cx.assume(z3.And(TSeq(NKey3).len(ka.e) == TSeq(Attr3).len(va.e), TSeq(NKey3).len(kb.e) == TSeq(Attr3).len(vb.e)))
+    diff = cx.uf('differ', [AVal3, AVal3], TBool)            # utils.are_different(a, b)
+    cx.spec_env['utils'] = Obj('utils', are_different=Builtin(lambda e, a, b: wrap(TBool, diff(to_z3(a, AVal3), to_z3(b, AVal3))), 'utils.are_different'))
+
+    def mol(keys, vals):
+        return Obj('Molecule', nodes=Obj('NodeView', keys=Builtin(lambda e: keys, 'nodes.keys'), values=Builtin(lambda e: vals, 'nodes.values')))
+    return dict(self=mol(ka, va), other=mol(kb, vb), ignore_attr=ign)
+
+
+SPEC_SN3 = {
+    'same_keys': "lambda: len(KEYS_A) == len(KEYS_B) and forall(lambda k: implies(0 <= k and k < len(KEYS_A), KEYS_A[k] == KEYS_B[k]))",
+    # the k-th atoms agree on every attribute that is not ignored: both have it or neither, and the values are not different
+    'agree': "lambda k: forall(lambda a: implies(not (a in IGNORED), (a in ATTRS_A[k]) == (a in ATTRS_B[k]) and "
+             "implies(a in ATTRS_A[k], not differ(ATTRS_A[k][a], ATTRS_B[k][a]))), AKey3)",
+}
+same_nodes = FunctionContract(
+    FM3, 'Molecule.same_nodes', 'C03', setup=setup_same_nodes, spec_defs=SPEC_SN3, spec_env=dict(AKey3=AKey3),
+    ensures=[
+        # two molecules have the same nodes exactly when they have the same node keys in the same order and every pair of
+        # corresponding atoms agrees on all attributes outside the ignored ones
+        "implies(result, same_keys() and forall(lambda k: implies(0 <= k and k < len(KEYS_A), agree(k))))",
+        "implies(not result, not (same_keys() and forall(lambda k: implies(0 <= k and k < len(KEYS_A), agree(k)))))",
+    ],
+    loops={'L1': LoopSpec(inv=["same_keys()", "forall(lambda k: implies(0 <= k and k < _i, agree(k)))"]),
+           'L1.1': LoopSpec(inv=["forall(lambda a: implies(a in self_keys and _posL1_1(a) < _i, not differ(self_node[a], other_node[a])), AKey3)"])},
+    canary=[("if self_keys != other_keys:", "if not self_keys <= other_keys:"),
+            ("if utils.are_different(self_value, other_value):", "if not utils.are_different(self_value, other_value):"),
+            ("if key not in ignore_attr)\n            other_keys", "if key in ignore_attr)\n            other_keys")],
+)
+CONTRACTS.append(same_nodes)
+
+
+
+# ------------------------------------------------------------------ Molecule.share_moltype_with: what is compared, what is ignored
+def setup_smw(cx):
+    flags = {k: cx.val(k, TBool) for k in ('NREXCL_EQ', 'FF_EQ', 'NODES_EQ', 'EDGES_EQ', 'INTER_EQ')}
+    cx.spec_env.update(flags)
+    IGN = cx.heap('IGNORED_ATTRS', Box(TSeq(TStr)))         # the attributes same_nodes is told to ignore
+    other = Obj('Molecule', nrexcl=Obj('nrexcl-other'), _force_field=Obj('ff-other'))
+
+    class Eq:
+        pass
+
+    def eq_obj(flag):
+        o = Obj('value')
+        o.__dict__['eq_flag'] = flag
+        return o
+    nrexcl, ff = eq_obj(flags['NREXCL_EQ']), eq_obj(flags['FF_EQ'])
+    cx.eng.eq_hooks = getattr(cx.eng, 'eq_hooks', {})
+
+    def same_nodes_(e, o, ignore_attr=()):
+        if o is not other or not isinstance(ignore_attr, tuple) or not all(isinstance(a, str) for a in ignore_attr):
+            raise EngineError('same_nodes(%r, %r)' % (o, ignore_attr))
+        IGN.e = to_z3(Box(TSeq(TStr)), TSeq(TStr))
+        from pyvc.builtins import list_append
+        for a in ignore_attr:
+            list_append(e, IGN, a)
+        return flags['NODES_EQ']
+    me = Obj('Molecule', nrexcl=nrexcl, _force_field=ff, same_nodes=Builtin(same_nodes_, 'self.same_nodes'),
+             same_edges=Builtin(lambda e, o: flags['EDGES_EQ'] if o is other else (_ for _ in ()).throw(EngineError('same_edges')), 'self.same_edges'),
+             same_interactions=Builtin(lambda e, o: flags['INTER_EQ'] if o is other else (_ for _ in ()).throw(EngineError('same_interactions')),
+                                       'self.same_interactions'))
+    nrexcl.attrs['__eq__'] = Builtin(lambda e, o: flags['NREXCL_EQ'] if o is other.attrs['nrexcl'] else (_ for _ in ()).throw(EngineError('==')), '==')
+    ff.attrs['__eq__'] = Builtin(lambda e, o: flags['FF_EQ'] if o is other.attrs['_force_field'] else (_ for _ in ()).throw(EngineError('==')), '==')
+    return dict(self=me, other=other)
+
+
+share_moltype_with = FunctionContract(
+    FM3, 'Molecule.share_moltype_with', 'C03', setup=setup_smw,
+    ensures=[
+        # two molecules share a molecule type exactly when they agree on nrexcl, the force field, the nodes - ignoring only
+        # position, chain, the mapped subgraph and the mapping weights -, the bonds and the interactions
+        "result == (NREXCL_EQ and FF_EQ and NODES_EQ and EDGES_EQ and INTER_EQ)",
+        "implies(NREXCL_EQ and FF_EQ, len(IGNORED_ATTRS) == 4 and IGNORED_ATTRS[0] == 'position' and IGNORED_ATTRS[1] == 'chain' and "
+        "   IGNORED_ATTRS[2] == 'graph' and IGNORED_ATTRS[3] == 'mapping_weights')",
+    ],
+    modifies=['IGNORED_ATTRS'],
+    canary=[("ignore_attrs = ('position', 'chain', 'graph', 'mapping_weights')", "ignore_attrs = ('position', 'chain', 'graph', 'mapping_weights', 'atomid')"),
+            ("self.same_edges(other) and", "")],
+)
+CONTRACTS.append(share_moltype_with)
